@@ -147,7 +147,9 @@ class Printer(PrinterBase):
         return f"{typ} {var} = {value};"
 
     def make_constant(self, like, value):
-        return f"ScalarLike({like.ref}, {value})"
+        # printing the like expression ensures that it is declared
+        # before it is used here
+        return f"ScalarLike({self.tostring(like)}, {value})"
 
     def make_argument(self, arg):
         typ = self.get_type(arg)
